@@ -150,6 +150,35 @@ def run(v) -> None:
         if got != list(range(256)):
             bad = next((i for i, g in enumerate(got) if g != i), 0)
             v.violation("KernelPackTable", "kernels.pack1_8_vect", {"nbits": 1, "order": order, "byte": bad}, got[bad:bad + 4], [bad])
+    # (R) at scale: the same TLC table applied as a lookup to inputs beyond any internal blocking threshold (4 MiB + 3 bytes, a
+    # non-zero last byte, a dirty caller buffer) - kernels that split large inputs into blocks must get the seams and the tail right
+    big_n = 2 ** 22 + 3
+    nrng = np.random.default_rng(seed())
+    for nb in ((1, 4) if quick else (1, 2, 4)):
+        fact = 8 // nb
+        for order in ("big", "little"):
+            lut = np.zeros((256, fact), dtype=np.uint8)
+            for r in rows:
+                if r["nbits"] == nb and r["order"] == order:
+                    lut[r["byte"]] = r["fields"]
+            raw = nrng.integers(0, 256, size=big_n, dtype=np.uint8)
+            raw[-1] = 0xA7
+            want = lut[raw].ravel()
+            for mode in ("none", "dirty"):
+                buf = None if mode == "none" else np.full(big_n * fact, 0xFF, dtype=np.uint8)
+                oc, got = _outcome(lambda: bits.unpack(raw, nb, buf, bitorder=order))
+                v.evaluations += 1
+                if oc != "ok" or got.shape != want.shape or not np.array_equal(got, want):
+                    bad = int(np.flatnonzero(got != want)[0]) if (oc == "ok" and got.shape == want.shape) else -1
+                    v.violation("UnpackTableAtScale", SITE_U, {"nbits": nb, "order": order, "nbytes": big_n, "buf": mode},
+                                {"outcome": oc, "first_bad_index": bad, "of": int(want.size)}, "table lookup of every byte")
+                buf = None if mode == "none" else np.full(big_n, 0xFF, dtype=np.uint8)
+                oc, got = _outcome(lambda: bits.pack(want, nb, buf, bitorder=order))
+                v.evaluations += 1
+                if oc != "ok" or got.shape != raw.shape or not np.array_equal(got, raw):
+                    bad = int(np.flatnonzero(got != raw)[0]) if (oc == "ok" and got.shape == raw.shape) else -1
+                    v.violation("PackTableAtScale", SITE_P, {"nbits": nb, "order": order, "nbytes": big_n, "buf": mode},
+                                {"outcome": oc, "first_bad_index": bad, "of": big_n}, "inverse table lookup")
     v.sample({"R_row": rows[27]})
 
     # (T) code -> spec -------------------------------------------------------------------------
@@ -232,6 +261,17 @@ def run(v) -> None:
                     continue
                 events.append(_ev(api, nb, "big", [1, 0, 1, 0, 1, 1, 0, 1], "zero", outsize=wrong))
                 events.append(_ev(api, nb, "little", [1, 0, 1, 0, 1, 1, 0, 1] * 3, "dirty", outsize=(wrong if wrong != 3 * good else 1)))
+    # the validation rules do not depend on the input being non-empty
+    for api in ("unpack", "pack"):
+        for nb in (0, 3, 8):
+            events.append(_ev(api, nb, "big", [], "none"))
+        for od in ("", "x", "msb"):
+            events.append(_ev(api, 2, od, [], "none"))
+        for dt in (np.uint16, np.float32):
+            events.append(_ev(api, 2, "big", [], "none", dtype=dt))
+        for nb in (1, 2, 4):
+            for wrong in (1, 8 // nb, 7):
+                events.append(_ev(api, nb, "little", [], "zero", outsize=wrong))
     # python-side structural clauses that are not about values (same buffer returned, dtype)
     for e in events:
         v.evaluations += 1
